@@ -181,3 +181,22 @@ def run_case(c):
     return Outcome(sorted(keys), nontrivial, 'seqs=%d' % len(st['seqs']), transitions=runs, compared=runs, violations=vl,
                    extra={'walk_runs': st['runs'], 'walk_intervals': st['intervals'], 'walk_breakpoints': st['breakpoints'],
                           'exact_ties_hit': st['ties_hit'], 'cap_hit': st['cap_hit'], 'decision_sequences': len(st['seqs'])})
+
+
+# ------------------------------------------------------------------------------------------------ second tier: histories
+# every history of depth 2 (3 thorough) whose last event belongs to this property, on the explicit-state explorer; the last
+# event is compared with its dense definition on the operands as they are in that state (ttmc/history_tier.py)
+from .. import history_tier as _ht
+
+_cases_e1, _run_case_e1 = cases, run_case
+
+
+def cases(tier, seed):
+    yield from _cases_e1(tier, seed)
+    yield from _ht.cases(PROPERTY, tier)
+
+
+def run_case(c):
+    if c.get('g') == 'E2':
+        return _ht.run_case(PROPERTY, c)
+    return _run_case_e1(c)
